@@ -24,6 +24,17 @@ var (
 	taskNames = []string{"A", "B", "C"}
 )
 
+// dirPool: names for the directory that holds the spokfile; characters that mean something to a glob
+// or a format string are ordinary characters of a directory name.
+var dirPool = []string{"proj [v2]", "release{1,2}", "my proj", "a*b", "q?z", "back\\slash", "pr%sj%d", "プロジェクト", "-dash", "**", ".hidden"}
+
+func genDir(t *rapid.T) string {
+	if rapid.IntRange(0, 3).Draw(t, "odd_dir") != 0 {
+		return ""
+	}
+	return rapid.SampledFrom(dirPool).Draw(t, "dir")
+}
+
 func subset(t *rapid.T, label string, from []string, max int) []string {
 	var out []string
 	for _, f := range from {
@@ -101,6 +112,7 @@ func genCacheCase(t *rapid.T) CacheCase {
 		c.Links["extra.txt"] = "nowhere"
 		delete(c.Init, "extra.txt")
 	}
+	c.Dir = genDir(t)
 	names := taskNames[:n]
 	nsteps := rapid.IntRange(2, 14).Draw(t, "nsteps")
 	if ev.Thorough() {
